@@ -121,12 +121,26 @@ static bool INV_REF(void) {
     && (!(isref && gk < _i && !firstPass && !K->InstrLabel_relative) || (K->InstrLabel_labelValue == (L >> 2) && (!(L & 3) || unaligned != NULL)));
 }
 
+/* completeness of the rejection: the flag `unaligned`, when set, points at an absolute reference visited in THIS pass whose
+   label value (as read) is off a word boundary; ghost witness (gw, gwt, old_gwt) maintained by the step harness */
+static size_t gw, gwt; static int old_gwt;
+static bool INV_UNAL(void) {
+  if (unaligned == NULL) return true;
+  if (!(gw < prog_n && gwt < prog_n)) return false;
+  const Directive *K = &program[gw], *T = &program[gwt];
+  int L = (gwt < gw) ? T->Label_labelValue : old_gwt;
+  return unaligned == &program[gw] && gw < _i && WF(K, prog_n, false) && WF(T, prog_n, false)
+    && K->cls == CLS_InstrLabel && !K->InstrLabel_relative && K->InstrLabel_label == (int)gwt && ISLABEL(T) && (L & 3) != 0
+    && (gwt < gw || !(gwt >= _i || !changed) || T->Label_labelValue == old_gwt);
+}
+
 static void pass_state(void) {
   prog_n = nondet_size(); __CPROVER_assume(prog_n >= 1 && prog_n <= MAXN);
   program = malloc(prog_n * sizeof(Directive)); __CPROVER_assume(program != NULL);
   _i = nondet_size(); gk = nondet_size(); gt = nondet_size(); gc = nondet_size();
   byteOffset = nondet_int(); changed = nondet_bool(); firstPass = nondet_bool(); old_gk = nondet_int(); old_gt = nondet_int();
-  unaligned = nondet_bool() ? &program[0] : NULL;
+  gw = nondet_size(); gwt = nondet_size(); old_gwt = nondet_int();
+  { size_t u = nondet_size(); __CPROVER_assume(u < prog_n); unaligned = nondet_bool() ? &program[u] : NULL; }
   verif_thrown = false;
   __CPROVER_assume(gk < prog_n && gt < prog_n && gc < prog_n);
 }
@@ -137,8 +151,10 @@ void h_pass_ref_base(void) {
   __CPROVER_assume(WF(&program[gk], prog_n, false) && WF(&program[gt], prog_n, false));
   __CPROVER_assume(program[gk].cls != CLS_InstrLabel || (program[gk].InstrLabel_label == (int)gt && ISLABEL(&program[gt])));
   old_gk = program[gk].Label_labelValue; old_gt = program[gt].Label_labelValue;   /* ghost: values at pass entry */
-  changed = false; unaligned = NULL; byteOffset = 0; _i = 0;
+  changed = true;                                  /* `while (changed)` was entered */
+  PASS_ENTRY(); _i = 0;                            /* the extracted statements at the top of the while body */
   __CPROVER_assert(INV_REF(), "C05 pass(ref): invariant holds at pass entry");
+  __CPROVER_assert(INV_UNAL(), "C05 pass(unaligned): no stale rejection flag at pass entry");
 }
 
 /* step: one iteration of the extracted loop body from an arbitrary state satisfying the invariant */
@@ -170,6 +186,33 @@ void h_pass_ref_step(void) {
   COVER_GOAL(i0 == gt && ISLABEL(&T0) && changed && !changed0); COVER_GOAL(i0 != gk && i0 != gt && program[i0].cls == CLS_Data && (byteOffset & 3) == 0);
   COVER_GOAL(i0 == gk && K0.cls == CLS_InstrLabel && firstPass); COVER_GOAL(i0 > gk && i0 > gt && i0 > 1000);
 #endif
+}
+
+void h_pass_unal_step(void) {
+  pass_state();
+  __CPROVER_assume(_i < prog_n && COMMON());
+  __CPROVER_assume(INV_UNAL());
+  __CPROVER_assume(WF(&program[_i], prog_n, false));
+  size_t i0 = _i; Directive *un0 = unaligned;
+  int r = pass_body(&program[_i]);
+  if (r < 0) return;
+  _i = i0 + 1;
+  if (unaligned == &program[i0] && un0 != &program[i0]) {      /* ghost update: the flag was set by this directive */
+    gw = i0; gwt = (size_t)program[i0].InstrLabel_label;
+    if (gwt < prog_n && gwt > i0) old_gwt = program[gwt].Label_labelValue;   /* not yet visited: still its pass-entry value */
+  }
+  __CPROVER_assert(INV_UNAL(), "C05 pass(unaligned): the rejection flag always points at an absolute reference whose label value, as read in this pass, is off a word boundary");
+#ifdef CANARY
+  __CPROVER_assert(0, "canary: harness end reachable");
+#endif
+}
+void h_unal_exit(void) {
+  pass_state();
+  __CPROVER_assume(COMMON() && INV_UNAL());
+  __CPROVER_assume(_i == prog_n && !changed && !firstPass);
+  __CPROVER_assert(unaligned == NULL || (program[gw].cls == CLS_InstrLabel && !program[gw].InstrLabel_relative && program[gw].InstrLabel_label == (int)gwt &&
+                   (program[gwt].Label_labelValue & 3) != 0),
+                   "C05: a program is rejected for alignment only if some absolute reference's label is off a word boundary in the final layout");
 }
 
 /* exit of a pass that changed nothing (the outer loop then ends): the property for reference k */
@@ -209,7 +252,7 @@ static bool INV_CHAIN(void) {
 void h_pass_chain_base(void) {
   pass_state();
   __CPROVER_assume(gc + 1 < prog_n && WF(&program[gc], prog_n, false) && WF(&program[gc + 1], prog_n, false));
-  changed = false; unaligned = NULL; byteOffset = 0; _i = 0;
+  changed = true; PASS_ENTRY(); _i = 0;
   __CPROVER_assert(INV_CHAIN(), "C05 pass(chain): invariant holds at pass entry");
 }
 void h_pass_chain_step(void) {
@@ -248,7 +291,7 @@ static bool INV_PROGRESS(void) {
 void h_progress_base(void) {
   pass_state();
   __CPROVER_assume(WF(&program[0], prog_n, false) && program[0].Directive_byteOffset == 0);   /* E: the first directive sits at 0 */
-  changed = false; unaligned = NULL; byteOffset = 0; _i = 0; grown = false; firstPass = false;
+  changed = true; PASS_ENTRY(); _i = 0; grown = false; firstPass = false;
   __CPROVER_assert(INV_PROGRESS(), "C05 termination: progress invariant holds at pass entry");
 }
 void h_progress_step(void) {
@@ -504,6 +547,9 @@ def jobs_for(unit, tier, prefix="C05"):
         J("pass.ref.base", unit, "h_pass_ref_base", functions=["resolveLabels pass"], role="aux"),
         J("pass.ref.step", unit, "h_pass_ref_step", replace=["instrLen", "numNibbles"], object_bits=12, timeout=1500, stop_on_fail=True, functions=["resolveLabels pass body", "Directive family"], role="aux",
           note="inductive step over a directive list of symbolic length (<= 100000), ghost reference k / target t; callees replaced by their contracts"),
+        J("pass.unal.step", unit, "h_pass_unal_step", replace=["instrLen", "numNibbles"], object_bits=12, timeout=1500, stop_on_fail=True, functions=["resolveLabels pass body"],
+          note="completeness of the rejection flag (ghost witness)"),
+        J("unal.exit", unit, "h_unal_exit", functions=["resolveLabels (after the loop)"], note="rejected only if an absolute reference's label is unaligned in the final layout"),
         J("fixedpoint.exit", unit, "h_fixedpoint_exit", functions=["resolveLabels (exit of a changeless pass)"], note="property-level: follows from the pass invariant"),
         J("pass.chain.base", unit, "h_pass_chain_base", unwind=9, functions=["resolveLabels pass"], role="aux"),
         J("pass.chain.step", unit, "h_pass_chain_step", replace=["instrLen"], unwind=9, object_bits=12, timeout=1500, stop_on_fail=True, functions=["resolveLabels pass body"],
